@@ -409,11 +409,12 @@ next_loop_unlocked:
 	if (ret == LZMA_OK) {
 		if (partial_update != PARTIAL_DISABLED) {
 			// The main thread uses thr->mutex to change from
-			// PARTIAL_DISABLED to PARTIAL_START. The main thread
-			// doesn't care about this variable after that so we
-			// can safely change it here to PARTIAL_ENABLED
-			// without a mutex.
-			thr->partial_update = PARTIAL_ENABLED;
+			// PARTIAL_DISABLED to PARTIAL_START. After that the
+			// main thread only reads this variable and it does
+			// so while holding coder->mutex (see
+			// read_output_and_wait()), so the change to
+			// PARTIAL_ENABLED is done below with coder->mutex
+			// locked.
 
 			// The main thread is reading decompressed data
 			// from thr->outbuf. Tell the main thread about
@@ -425,6 +426,7 @@ next_loop_unlocked:
 			// it is possible that neither in_pos nor out_pos has
 			// changed.
 			mythread_sync(thr->coder->mutex) {
+				thr->partial_update = PARTIAL_ENABLED;
 				thr->outbuf->pos = thr->out_pos;
 				thr->outbuf->decoder_in_pos = thr->in_pos;
 				mythread_cond_signal(&thr->coder->cond);
@@ -817,9 +819,11 @@ read_output_and_wait(struct lzma_stream_coder *coder,
 			// input, it will eventually get LZMA_BUF_ERROR.
 			//
 			// NOTE: We can read partial_update and in_filled
-			// without thr->mutex as only the main thread
-			// modifies these variables. decoder_in_pos requires
-			// coder->mutex which we are already holding.
+			// without thr->mutex: in_filled is modified only
+			// by the main thread and the worker thread changes
+			// partial_update only with coder->mutex locked.
+			// decoder_in_pos requires coder->mutex too. We are
+			// already holding it.
 			if (coder->thr != NULL && coder->thr->partial_update
 					!= PARTIAL_DISABLED) {
 				// There is exactly one outbuf in the queue.
